@@ -241,6 +241,9 @@ func (st *specState) runTests(n *Node, dest reflect.Value, path string) (caught 
 				st.add(t.Path, t.Code, n.DType()) // IssuePath: the issue of this test is filed elsewhere
 			} else {
 				st.add(path, t.Code, n.DType())
+				if t.Double {
+					st.add(path, t.Code, n.DType())
+				}
 			}
 		}
 	}
